@@ -346,4 +346,51 @@ theorem verifyCompressed_of_roundtrip (c : CommonData) (vd : VerifierOnly) (pp :
     simp only [hs']
     exact hacc
 
+/-- **F-C16-1 as repaired**: whatever compressed proof is presented, acceptance by `verify_compressed`
+implies that the DECOMPRESSED proof passed the full shape validation of the plain verifier (all opening
+lists have the lengths the circuit dictates — in particular one chunk of quotient openings per
+challenge) and was accepted by `verify_with_challenges` under the challenges of the compressed
+transcript. Before the repair the shape conjunct was absent, and with no quotient openings the
+identity check was vacuous. -/
+theorem verifyCompressed_accept_imp (c : CommonData) (vd : VerifierOnly) (cpp : CompressedProofWithPis)
+    (h : verifyCompressed c vd cpp = .accept) :
+    cpp.publicInputs.length = c.numPublicInputs ∧
+    ∃ proof, decompressWith c (getChallenges c (publicInputsHash cpp.publicInputs) vd.circuitDigest
+        (challengeView cpp.proof)) cpp.proof = some proof ∧
+      Plonk.validateShape c ⟨proof, cpp.publicInputs⟩ = .accept ∧
+      verifyWithChallenges c vd proof (publicInputsHash cpp.publicInputs)
+        (getChallenges c (publicInputsHash cpp.publicInputs) vd.circuitDigest (challengeView cpp.proof)) = .accept := by
+  unfold verifyCompressed at h
+  by_cases hl : cpp.publicInputs.length ≠ c.numPublicInputs
+  · simp [hl] at h
+  · have hl' : cpp.publicInputs.length = c.numPublicInputs := by
+      by_cases hq : cpp.publicInputs.length = c.numPublicInputs
+      · exact hq
+      · exact absurd hq hl
+    simp only [hl, if_false] at h
+    refine ⟨hl', ?_⟩
+    cases hd : decompressWith c (getChallenges c (publicInputsHash cpp.publicInputs) vd.circuitDigest
+        (challengeView cpp.proof)) cpp.proof with
+    | none => simp [hd] at h
+    | some proof =>
+      simp only [hd] at h
+      cases hs : Plonk.validateShape c ⟨proof, cpp.publicInputs⟩ with
+      | accept => simp only [hs] at h; exact ⟨proof, rfl, hs, h⟩
+      | reject s => simp [hs] at h
+      | panic s => simp [hs] at h
+
+/-- a compressed proof whose decompressed form is mis-shaped (e.g. no quotient openings) is never
+accepted -/
+theorem verifyCompressed_rejects_bad_shape (c : CommonData) (vd : VerifierOnly) (cpp : CompressedProofWithPis)
+    (proof : Plonk.Proof)
+    (hd : decompressWith c (getChallenges c (publicInputsHash cpp.publicInputs) vd.circuitDigest
+        (challengeView cpp.proof)) cpp.proof = some proof)
+    (hs : Plonk.validateShape c ⟨proof, cpp.publicInputs⟩ ≠ .accept) :
+    verifyCompressed c vd cpp ≠ .accept := by
+  intro h
+  obtain ⟨_, proof', hd', hs', _⟩ := verifyCompressed_accept_imp c vd cpp h
+  rw [hd] at hd'
+  cases hd'
+  exact hs hs'
+
 end P2.Props.C16
